@@ -188,6 +188,38 @@ func (e *Engine) solveAll(obls []*Obl, par int, timeout int, dump string) {
 		}(i, o)
 	}
 	wg.Wait()
+	// second attempt for obligations no solver decided (timeout / unknown): alone on an otherwise idle machine and with
+	// three times the budget, so that a proof that needs a few seconds is not lost to the load of the parallel phase.
+	// A genuine counterexample (sat with a model) is never retried.
+	var retry []int
+	for i, o := range obls {
+		if o.Direct || o.Canary || o.ExpectSat || o.ok() {
+			continue
+		}
+		if o.Res.Status == "sat" && !o.GroundOnly {
+			continue
+		}
+		retry = append(retry, i)
+	}
+	if len(retry) > 0 && len(retry) <= 40 {
+		sem2 := make(chan struct{}, 3)
+		var wg2 sync.WaitGroup
+		for _, i := range retry {
+			wg2.Add(1)
+			sem2 <- struct{}{}
+			go func(i int, o *Obl) {
+				defer wg2.Done()
+				defer func() { <-sem2 }()
+				r := decide(o, timeout*3, fmt.Sprintf("o%dr", i))
+				if r.Status == "unsat" {
+					r.Solver += " second attempt"
+					o.Res = r
+					o.GroundOnly = false
+				}
+			}(i, obls[i])
+		}
+		wg2.Wait()
+	}
 }
 
 func runVariant(o *Obl, to int, name string, model bool, set func(*Obl)) SolverResult {
